@@ -1621,7 +1621,11 @@ func (c *compiler) compileCallInternal(
 			goto inlined
 		}
 		if internal {
-			switch len(c.codes) - pc {
+			n := len(c.codes) - pc
+			if n == 3 && c.codes[pc+1].op == opforklabel {
+				n = 0 // the label variable belongs to the scope of the argument
+			}
+			switch n {
 			case 2: // optimize identity argument (opscope, opret)
 				j := len(c.codes) - 3
 				c.codes[j] = &code{op: opload, v: v}
